@@ -87,6 +87,74 @@ out["prefix_matches"] = sorted(
     [c.__name__, c._class_prefix(), bool(c._has_number()), int(c._has_classifier())] for c in dp.PREFIX_MATCHES)
 from montepy.particle import Particle
 out["particle_enum"] = sorted(p.value.lower() for p in Particle)
+# ---- the regular expressions of the lexers as abstract syntax (sre's own parser), for Gen/Lexer.v
+import re as _re2
+try:
+    from re import _parser as _sre, _constants as _C
+except ImportError:
+    import sre_parse as _sre, sre_constants as _C
+
+def _cset(av):
+    neg = False
+    items = []
+    for op, a in av:
+        if op is _C.NEGATE:
+            neg = True
+        elif op is _C.LITERAL:
+            items.append(["c", a])
+        elif op is _C.RANGE:
+            items.append(["r", a[0], a[1]])
+        elif op is _C.CATEGORY:
+            items.append({_C.CATEGORY_DIGIT: ["d"], _C.CATEGORY_SPACE: ["s"], _C.CATEGORY_NOT_DIGIT: ["D"],
+                          _C.CATEGORY_NOT_SPACE: ["S"]}[a])
+        else:
+            raise ValueError("unsupported set item %r" % (op,))
+    return ["set", neg, items]
+
+def _ast(sub):
+    seq = []
+    for op, av in sub:
+        if op is _C.LITERAL:
+            seq.append(["lit", av])
+        elif op is _C.NOT_LITERAL:
+            seq.append(["set", True, [["c", av]]])
+        elif op is _C.ANY:
+            seq.append(["any"])
+        elif op is _C.IN:
+            seq.append(_cset(av))
+        elif op is _C.BRANCH:
+            seq.append(["alt", [_ast(b) for b in av[1]]])
+        elif op is _C.SUBPATTERN:
+            if av[1] or av[2]:
+                raise ValueError("inline flags are not supported")
+            seq.append(_ast(av[3]))
+        elif op is _C.MAX_REPEAT:
+            mn, mx, body = av
+            seq.append(["rep", int(mn), None if mx is _C.MAXREPEAT else int(mx), _ast(body)])
+        elif op is _C.ASSERT_NOT:
+            if av[0] != 1:
+                raise ValueError("look-behind is not supported")
+            seq.append(["notahead", _ast(av[1])])
+        elif op is _C.AT:
+            seq.append({_C.AT_BEGINNING: ["begin"], _C.AT_END: ["end"]}[av])
+        elif op is _C.CATEGORY:
+            seq.append(["set", False, [{_C.CATEGORY_DIGIT: ["d"], _C.CATEGORY_SPACE: ["s"]}[av]]])
+        else:
+            raise ValueError("unsupported regular-expression construct %r" % (op,))
+    return ["seq", seq]
+
+def _parse_re(pattern, flags):
+    return _ast(_sre.parse(pattern, flags))
+
+for name, L in lex.items():
+    cls = getattr(tokens, name)
+    if not (cls.reflags & _re2.IGNORECASE and cls.reflags & _re2.VERBOSE):
+        raise ValueError("lexer flags changed: %r" % cls.reflags)
+    L["ast"] = [[n, _parse_re(p, cls.reflags)] for n, p in L["rules"]]
+out["expressions_ast"] = [[k, _parse_re(v.pattern, v.flags)] for k, v in tokens.MCNP_Lexer._EXPRESSIONS.items()]
+for k, v in tokens.MCNP_Lexer._EXPRESSIONS.items():
+    if not v.flags & _re2.IGNORECASE:
+        raise ValueError("_EXPRESSIONS flags changed")
 # two spellings of numbers that the model's [lex_safe] excludes from the lexer comparison while the source mis-lexes them
 import re as _re
 from montepy.utilities import fortran_float
@@ -265,6 +333,67 @@ def lrtables_v(d):
     return "\n".join(out) + "\n"
 
 
+LEXERS = ["CellLexer", "DataLexer", "SurfaceLexer"]
+
+
+def _re_coq(a):
+    k = a[0]
+    if k == "seq":
+        items = [_re_coq(x) for x in a[1]]
+        if not items:
+            return "REps"
+        out = items[-1]
+        for x in reversed(items[:-1]):
+            out = "(RSeq %s %s)" % (x, out)
+        return out
+    if k == "alt":
+        items = [_re_coq(x) for x in a[1]]
+        out = items[-1]
+        for x in reversed(items[:-1]):
+            out = "(RAlt %s %s)" % (x, out)
+        return out
+    if k == "lit":
+        return "(RLit %d)" % a[1]
+    if k == "any":
+        return "RAny"
+    if k == "set":
+        its = []
+        for it in a[2]:
+            its.append({"c": lambda i: "SChar %d" % i[1], "r": lambda i: "SRange %d %d" % (i[1], i[2]),
+                        "d": lambda i: "SDigit", "s": lambda i: "SSpace", "D": lambda i: "SNotDigit",
+                        "S": lambda i: "SNotSpace"}[it[0]](it))
+        return "(RSet %s [%s])" % ("true" if a[1] else "false", "; ".join(its))
+    if k == "rep":
+        return "(RRep %d %s %s)" % (a[1], "None" if a[2] is None else "(Some %d)" % a[2], _re_coq(a[3]))
+    if k == "notahead":
+        return "(RNotAhead %s)" % _re_coq(a[1])
+    if k == "begin":
+        return "RBegin"
+    if k == "end":
+        return "REnd"
+    raise ValueError(k)
+
+
+def lexer_v(d):
+    """Gen/Lexer.v: the token rules of the lexers, in rule order, as regular-expression syntax trees (parsed by
+    Python's own sre parser with the lexer's flags IGNORECASE | VERBOSE), the _EXPRESSIONS of the shortcuts, and the
+    literals.  Characters are code points (N)."""
+    out = ["(* GENERATED by harness/translate_grammar.py from the MontePy source tree — do not edit, not committed. *)\n"
+           "From Coq Require Import List String NArith.\nImport ListNotations.\nLocal Open Scope string_scope.\nLocal Open Scope N_scope.\n\n"
+           "Inductive set_item := SChar (c : N) | SRange (lo hi : N) | SDigit | SSpace | SNotDigit | SNotSpace.\n"
+           "Inductive re :=\n| REps | RLit (c : N) | RSet (negated : bool) (items : list set_item) | RAny\n"
+           "| RSeq (a b : re) | RAlt (a b : re) | RRep (min : N) (max : option N) (r : re) | RNotAhead (r : re)\n"
+           "| RBegin | REnd.\n"]
+    for name in LEXERS:
+        L = d["lexers"][name]
+        rows = ["(%s, %s)" % (cs(n), _re_coq(a)) for n, a in L["ast"]]
+        out.append("Definition %s_token_rules : list (string * re) := %s." % (name, clist(rows, 1)))
+        out.append("Definition %s_token_literals : list string := %s.\n" % (name, clist(cs(x) for x in L["literals"])))
+    rows = ["(%s, %s)" % (cs(n), _re_coq(a)) for n, a in d["expressions_ast"]]
+    out.append("Definition shortcut_expressions : list (string * re) := %s." % clist(rows, 1))
+    return "\n".join(out) + "\n"
+
+
 def tables_v(d, mode, ppm):
     out = [HEADER % "translate_grammar.py"]
     out.append("Definition keywords : list string := %s." % clist(cs(x) for x in d["keywords"]))
@@ -319,7 +448,7 @@ def regenerate():
     _LAST.update(d=d, mode=mode, ppm=ppm)
     written = []
     for name, text in (("Grammar.v", grammar_v(d)), ("Tables.v", tables_v(d, mode, ppm)),
-                       ("LRTables.v", lrtables_v(d))):
+                       ("LRTables.v", lrtables_v(d)), ("Lexer.v", lexer_v(d))):
         p = os.path.join(vlib.COQ, "Gen", name)
         if vlib.write_if_changed(p, text):
             written.append(p)
